@@ -1805,32 +1805,41 @@ func updateArraySlice(v []any, m map[string]any, path []any, n any, a allocator)
 }
 
 func deleteEmpty(v any) any {
+	v, _ = deleteEmptyUpdated(v)
+	return v
+}
+
+// Reports whether the value needs to be stored back, so that the containers
+// without deletion, which can be shared with other values, are not written.
+func deleteEmptyUpdated(v any) (any, bool) {
 	switch v := v.(type) {
 	case struct{}:
-		return nil
+		return nil, true
 	case map[string]any:
 		for k, w := range v {
 			if w == struct{}{} {
 				delete(v, k)
-			} else {
-				v[k] = deleteEmpty(w)
+			} else if w, ok := deleteEmptyUpdated(w); ok {
+				v[k] = w
 			}
 		}
-		return v
+		return v, false
 	case []any:
 		var j int
-		for _, w := range v {
+		for i, w := range v {
 			if w != struct{}{} {
-				v[j] = deleteEmpty(w)
+				if w, ok := deleteEmptyUpdated(w); ok || i > j {
+					v[j] = w
+				}
 				j++
 			}
 		}
 		for i := j; i < len(v); i++ {
 			v[i] = nil
 		}
-		return v[:j]
+		return v[:j], j < len(v)
 	default:
-		return v
+		return v, false
 	}
 }
 
